@@ -10,26 +10,52 @@ NOT_APPLICABLE = {
 }
 
 PLAN = {
-    "C06": dict(
-        verus=[], kani=["slots"], level="proof",
-        claim="poll decision table + drop, all states",
-        note="wip",
-    ),
     "C01": dict(
-        verus=[], kani=["slots", "wkc"], level="proof",
-        claim="first_pdu / trim_front / wkc on real pointers",
-        note="wip",
+        verus=[], kani=["slots", "wkc", "storage", "rx"], level="proof",
+        claim="sequential core of response routing on the real code (Kani): index lookup returns the lowest matching slot and never an empty one; "
+              "receive_frame stores the response byte-exact into exactly the Sent slot that owns the first datagram index and marks it RxDone; "
+              "poll returns Ok only from RxDone; first_pdu validates command/index and views exactly the datagram's data area; trim_front "
+              "shortens the view; wkc is the two bytes after the data. Loop-free harnesses over full-domain inputs are complete; receive_frame is "
+              "a bounded stand-in (N=2, DATA=44, input <= 50 bytes).",
+        note="the quantifier over schedules is NOT decided by contracts: it rests on the stated assumption that an execution is an interleaving of the "
+             "atomic slot operations whose sequential contracts are proved here (C02 composition argument); known finding D2 (view outlives its slot)",
     ),
     "C02": dict(
-        verus=[], kani=["slots"], level="proof",
-        claim="per-operation contracts of the slot protocol on the real slot (Kani, all 8 states, loop-free)",
-        note="interleaving + memory-model assumption; protocol lemma pending",
+        verus=["slot_protocol"], kani=["slots", "storage", "tx"], level="proof",
+        claim="rely/guarantee: (1) every slot operation of the real code performs exactly the transition of the protocol table from an arbitrary "
+              "pre-state and touches nothing else (Kani, all 8 states, loop-free => complete); (2) the protocol machine built from that table keeps "
+              "'at most one party inside each buffer' as an inductive invariant for any number of slots and tasks (Verus lemma)",
+        note="glue assumed: real executions are interleavings of those atomic operations, each party calls only its role's operations "
+             "(PduTx / PduRx exist once: try_split proved); memory-ordering arguments are not machine-checked",
     ),
-    "C19": dict(
-        verus=[], kani=["@wire"], level="translation_validation",
-        claim="every #[derive(EtherCrabWire*)] type in /repo/src: the derive OUTPUT is validated against a layout computed independently from the "
-              "#[wire] attributes, for all byte strings (Kani, loop-free, complete per type)",
-        note="the proc-macro program itself is not verified; generic types and write-only derives are skipped and listed",
+    "C03": dict(
+        verus=["slot_protocol"], kani=["slots", "storage"], level="proof",
+        claim="every release path returns the slot (CreatedFrame::drop, ReceivedFrame::drop, ReceiveFrameFut::drop, poll timeout, send failure, reset) and "
+              "alloc_frame fails only when no slot is None, touching no other slot (Kani; alloc per N in {1,2,(4)} with all state vectors and cursors); "
+              "lemma: a slot that is not None is held by a live handle or by TX/RX",
+        note="alloc_frame is proved per storage size N (configurations enumerated), not for symbolic N",
+    ),
+    "C05": dict(
+        verus=[], kani=["rx", "storage", "slots"], level="proof",
+        claim="receive_frame on arbitrary bytes: totality, Ignored/Err leave buffers and markers untouched, strangers ignored, unmatched index never accepted "
+              "(Kani bounded stand-in: N=2, DATA=44, length<=50, everything else symbolic); claim_receiving / lookup / marker functions complete",
+        note="the length and slot-count bounds are stated in the evidence under bounded_not_counted_as_proved",
+    ),
+    "C06": dict(
+        verus=["slot_protocol"], kani=["slots"], level="proof",
+        claim="ReceiveFrameFut::poll decision table for all 8 slot states x deadline passed/not x every retry count under a virtual clock, and Drop: "
+              "RxDone wins, expired & 0 retries -> Timeout(Pdu), retry re-arms and leaves buffer+length untouched (byte-identical retransmission), "
+              "never Ok unless RxDone (Kani, loop-free, complete); send_blocking outcome table; the five (state, transition) pairs that are unsafe "
+              "are recorded as known findings, every other pair is proved",
+        note="'never hanging' is reduced to the bounded-count statement (each expiry consumes one retry); real time is not modelled (virtual clock stubs "
+             "for embassy_time_driver); known findings C06-U1..U5",
+    ),
+    "C18": dict(
+        verus=["dc_arith"], kani=[], level="proof",
+        claim="the two arithmetic fragments, verbatim from configure_dc_sync and tx_rx_dc (Verus, unbounded): SYNC0 start time is a multiple of the period in "
+              "(t+d-p, t+d] for all 1<=p<=u32::MAX, d<=u32::MAX; cycle offset = time mod period and wait = (period-offset)+shift without overflow for every u64 time",
+        note="assumes t+d representable in u64 and shift <= 2^33; period 0 is outside the quantifier (division by zero, noted as D19). The u32 range checks, "
+             "the register write order / activation flags and the 'only DC devices that asked for it' filter live in the surrounding async fns and are NOT decided",
     ),
     "C17": dict(
         verus=[], kani=["ports", "dc"], level="proof",
